@@ -32,6 +32,7 @@ fn parse_sink(s: &str) -> Option<Sink> {
         if p.len() == 2 { return Some(Sink::Lazy(p[0].parse().ok()?, p[1].parse().ok()?)); }
         return None;
     }
+    if s == "info" { return Some(Sink::Info); }
     if let Some(r) = s.strip_prefix("swap") { return r.parse().ok().map(Sink::Swap); }
     None
 }
@@ -110,6 +111,9 @@ enum POp {
     Cap(usize, String, usize),
     Release,
     DropVec(usize),
+    Info(usize), DcVec(usize, u8), WSwap(usize, usize, u8), TAssign(usize, usize), SwapB(usize, usize, usize),
+    TSwap(usize, usize, usize), ESwap(usize, usize, usize, usize), Probe(usize), Views(usize),
+    SetLen(usize, usize, bool), RawRt(usize), RawParts(usize),
 }
 
 fn parse_op(toks: &[&str]) -> Option<POp> {
@@ -141,6 +145,18 @@ fn parse_op(toks: &[&str]) -> Option<POp> {
         ["cloneemptyin", v, bk] => POp::CloneEmpty(num(v)?, Some(bk.to_string())),
         ["reserve", v, n] | ["reserveexact", v, n] | ["shrinkto", v, n] => POp::Cap(num(v)?, toks[0].to_string(), num(n)?),
         ["shrinktofit", v] => POp::Cap(num(v)?, "shrinktofit".to_string(), 0),
+        ["info", v] => POp::Info(num(v)?),
+        ["dcvec", v, t] => POp::DcVec(num(v)?, t.parse().ok()?),
+        ["wswap", v, i, t] => POp::WSwap(num(v)?, num(i)?, t.parse().ok()?),
+        ["tassign", v, i] => POp::TAssign(num(v)?, num(i)?),
+        ["swapb", v, i, j] => POp::SwapB(num(v)?, num(i)?, num(j)?),
+        ["tswap", v, i, j] => POp::TSwap(num(v)?, num(i)?, num(j)?),
+        ["eswap", v, i, w, j] => POp::ESwap(num(v)?, num(i)?, num(w)?, num(j)?),
+        ["probe", v] => POp::Probe(num(v)?),
+        ["views", v] => POp::Views(num(v)?),
+        ["setlen", v, k, p] => POp::SetLen(num(v)?, num(k)?, *p == "t"),
+        ["rawrt", v] => POp::RawRt(num(v)?),
+        ["rawparts", v] => POp::RawParts(num(v)?),
         ["release"] => POp::Release,
         ["dropvec", v] => POp::DropVec(num(v)?),
         _ => return None,
@@ -196,6 +212,22 @@ fn exec<F: Family>(env: &mut Env<F>, op: &POp) {
             let b = env.vecs[*v].borrow_mut().take();
             drop(b);
         }
+        POp::Info(v) => env.with_vec(*v, |d| d.info()),
+        POp::DcVec(v, t) => env.with_vec(*v, |d| d.dcvec(*t)),
+        POp::WSwap(v, i, t) => env.with_vec(*v, |d| d.wswap(*i, *t)),
+        POp::TAssign(v, i) => env.with_vec(*v, |d| d.tassign(*i)),
+        POp::SwapB(v, i, j) => env.with_vec(*v, |d| d.swapb(*i, *j)),
+        POp::TSwap(v, i, j) => env.with_vec(*v, |d| d.tswap(*i, *j)),
+        POp::ESwap(v, i, w, j) => {
+            let mut a = env.vecs[*v].borrow_mut();
+            let mut b = env.vecs[*w].borrow_mut();
+            a.as_mut().unwrap().eswap_with(*i, b.as_mut().unwrap().as_mut(), *j);
+        }
+        POp::Probe(v) => env.with_vec(*v, |d| d.probe()),
+        POp::Views(v) => env.with_vec(*v, |d| d.views()),
+        POp::SetLen(v, k, t) => env.with_vec(*v, |d| d.setlen(*k, *t)),
+        POp::RawRt(v) => env.with_vec(*v, |d| d.rawrt()),
+        POp::RawParts(v) => env.with_vec(*v, |d| d.rawparts()),
     }
 }
 
